@@ -386,4 +386,19 @@ def declsDisjoint (t : Stmt) : Bool :=
   | some b => b.globals.all fun x => !b.nonlocals.contains x
   | none => true
 
+
+mutual
+def disjB : Block → Bool
+  | .mk _ _ _ _ _ globals nonlocals _ _ children => (globals.all fun x => !nonlocals.contains x) && disjBs children
+def disjBs : List Block → Bool
+  | [] => true
+  | b :: rest => disjB b && disjBs rest
+end
+
+/-- `declsDisjoint` for every block of the tree. -/
+def allDeclsDisjoint (t : Stmt) : Bool :=
+  match blockOf t with
+  | some b => disjB b
+  | none => true
+
 end Malt.Analysis
